@@ -71,7 +71,7 @@ CHECKS += [
      "note": "universal statements over all byte strings / all values are sampled; schemas for PublicMessage bodies, GroupInfo, KeyPackage and stored snapshots are not transcribed (robustness oracles only)"},
     {"id": "C13", "category": "model_checking", "technique": "TLA+ transcription of the RFC 9420 derivation graph (KeySchedule.tla) + TLC validation of provenance trees recorded from the crypto provider",
      "text": "A recording CipherSuiteProvider logs every kdf_extract / kdf_expand / hash / mac while real groups run seeded scenarios; for every API-visible value (epoch authenticator, exported secret, message key and nonce given to aead_seal, confirmed transcript hash) the harness emits the tree of recorded calls that produced it, knowing nothing about the formulas; TLC matches each tree against KeySchedule.tla: label strings with the MLS 1.0 prefix, contexts, both length fields, Extract salt/ikm roles, PSK index/count chain, secret-tree left/right positions (TreeMath), ratchet generations. Every recorded call is also re-evaluated with the other shipped providers.",
-     "note": "primitives trusted as functions; values produced before recording starts (creation epoch) or received through HPKE are accepted as inputs; membership tag and Welcome secret are not yet claimed"},
+     "note": "primitives trusted as functions; values produced before recording starts (creation epoch) or received through HPKE are accepted as inputs; besides API-visible values, claims are made for provider *calls*: the key of every MAC (confirmation / membership), the key and nonce of every AEAD seal (message key, sender-data key, welcome key) and the input of every KEM key derivation (TreeKEM node secrets along the path-secret chain, external key pair) must have the RFC derivation shape"},
 ]
 
 CHECKS += [
